@@ -191,9 +191,21 @@ func (c *c19ctx) injectB1(n int) {
 	// the position
 	j := c.r.IntN(nf)
 	k := c.r.IntN(len(files[j].docs))
+	jsonStream := kind == "syntax" && c.r.IntN(3) == 0
+	if jsonStream {
+		// JSON streams (format taken from the extension of the first file): the malformed spot sits between documents
+		for fi, f := range files {
+			f.name, f.json, f.lead = fmt.Sprintf("f%d.json", fi), true, false
+		}
+		c.tag("input:json-stream")
+	}
 	switch kind {
 	case "syntax":
 		b := c19BrokenDocs[c.r.IntN(len(c19BrokenDocs))]
+		if jsonStream {
+			// (pure garbage only: `{"a":1,}` and `{"a" 1}` are accepted by the lenient JSON reader, which is not this check's business)
+			b = []string{"}", "]", "}}", `{"a": }`, `[1,2`, "nul", "@", "}", "]"}[c.r.IntN(9)]
+		}
 		files[j].docs[k] = c19Doc{text: b}
 		c.note("broken_document", b)
 	case "missing":
